@@ -446,8 +446,11 @@ def gen_program(rng: random.Random, size: int = 20, max_depth: int = 3, opset: i
     outs = [cands[-1]]
     for _ in range(rng.choice([0, 1, 1, 2])):
         c = g.pick(cands)
-        if c not in outs:
+        if c not in outs or rng.random() < 0.15:  # now and then the same value is requested twice
             outs.append(c)
+    if rng.random() < 0.1:  # … or a model input is passed through
+        a = rng.choice([k for k, n in enumerate(g.nodes) if n["op"] == "arg" and n["attrs"].get("role") == "main"])
+        outs.append((a, 0))
     rng.shuffle(outs)
     return {"nodes": g.nodes, "outputs": [list(o) for o in outs], "opset": opset}
 
